@@ -20,7 +20,7 @@ CFG = dict(
     corr_name='Model/Workers.v + Gen/PartitionGuard.v vs CodeGenerator::execute_with_config / contains_join',
     rule='(1) guard table: 14 tree shapes x {bare, over a join, over an aggregate} through the real contains_join; (2) random IR trees (depth <= 4, all node kinds; '
          'one third restricted to tuple-wise operators so that the partitioned path really runs; one sixth an aggregate on top of a join-free plan) x random typed '
-         'databases (6 relations, 0-8 tuples, Int/Str/Bool/Float columns) through execute_with_config for n in {1,2,3,4,8}; (3) generated IQL programs '
+         'databases (8 relations incl. two all-Int ones of width 3 and 4, 0-8 tuples, Int/Str/Bool/Float columns) through execute_with_config for n in {1,2,3,4,8}; (3) generated IQL programs '
          '(global and grouped count/sum/min/max heads, distinct projections, computed columns, join, negation, view-then-aggregate, aggregate-then-filter, union) '
          'through IQLEngine::set_num_workers(n), default and all-off optimization configs. Non-trivial = non-empty single-worker answer (or a guard-table shape); '
          'distinct by plan/program text + database.',
